@@ -8,11 +8,3 @@ CONSTANTS
   FreeAnywhere = TRUE
 CONSTRAINT Depth
 INVARIANT StepRefines
-INVARIANT L1Disjoint
-INVARIANT L1Inside
-INVARIANT ArrIndexed
-INVARIANT Tiling
-INVARIANT TopIsLast
-INVARIANT FreedExact
-INVARIANT FkeysExact
-INVARIANT Coalesced
